@@ -151,17 +151,17 @@ func gen(g *hx.Gen) {
 		for j := range reqs {
 			switch r.Intn(10) {
 			case 0, 1:
-				reqs[j] = sauth.None("a")
+				reqs[j] = sauth.None(sauth.U0)
 			case 2:
-				reqs[j] = sauth.Query("a", r.PickInt(1, 2))
+				reqs[j] = sauth.Query(sauth.U0, r.PickInt(1, 2))
 			case 3:
-				reqs[j] = sauth.Other("a", "hostbased")
+				reqs[j] = sauth.Other(sauth.U0, "hostbased")
 			case 4:
-				reqs[j] = sauth.Kbd("a")
+				reqs[j] = sauth.Kbd(sauth.U0)
 			case 5:
-				reqs[j] = sauth.Sign("a", r.PickInt(1, 2))
+				reqs[j] = sauth.Sign(sauth.U0, r.PickInt(1, 2))
 			default:
-				reqs[j] = sauth.Pw("a", "pw1")
+				reqs[j] = sauth.Pw(sauth.U0, "pw1")
 			}
 			reqs[j].Cb = r.PickStr("R", "R", "R", "R", "B1", "P111.0", "P100.0", "A1")
 			reqs[j].Vcb = r.PickStr("R", "A1", "P100.0")
@@ -170,7 +170,7 @@ func gen(g *hx.Gen) {
 			}
 		}
 		if r.Chance(1, 3) { // leading none: the free attempt
-			reqs[0] = sauth.None("a")
+			reqs[0] = sauth.None(sauth.U0)
 			reqs[0].Cb = "R"
 		}
 		emit(c, reqs)
@@ -194,18 +194,18 @@ func gen(g *hx.Gen) {
 		for j := range reqs {
 			switch kind {
 			case 0: // failing passwords, unlimited tries
-				reqs[j] = sauth.Pw("a", "x")
+				reqs[j] = sauth.Pw(sauth.U0, "x")
 				reqs[j].Cb = "R"
 			case 1: // accepted queries (attempts, not failures)
-				reqs[j] = sauth.Query("a", 1+j%2)
+				reqs[j] = sauth.Query(sauth.U0, 1+j%2)
 				reqs[j].Cb = "A1"
 			default: // partial successes forever
-				reqs[j] = sauth.Pw("a", "x")
+				reqs[j] = sauth.Pw(sauth.U0, "x")
 				reqs[j].Cb = "P111.0"
 			}
 		}
 		if r.Chance(1, 2) { // finish with something that would succeed if it were read
-			last := sauth.Pw("a", "pw1")
+			last := sauth.Pw(sauth.U0, "pw1")
 			last.Cb = "A1"
 			reqs[len(reqs)-1] = last
 			if r.Chance(1, 2) && ln > 128 {
@@ -223,7 +223,12 @@ func gen(g *hx.Gen) {
 		ln := r.Range(2, 6)
 		reqs := make([]sauth.Req, ln)
 		for j := range reqs {
-			u := r.PickStr("a", "a", "a", "b", "c")
+			// the same name mostly; otherwise one that differs by case / confusable / normalisation / blank
+			u := sauth.U0
+			if r.Chance(2, 5) {
+				u = sauth.OtherUser(r, sauth.U0)
+				g.Stat("user-change.confusable")
+			}
 			switch r.Intn(6) {
 			case 0:
 				reqs[j] = sauth.None(u)
@@ -260,15 +265,15 @@ func gen(g *hx.Gen) {
 		for j := range reqs {
 			switch r.Intn(7) {
 			case 0:
-				reqs[j] = sauth.None("a")
+				reqs[j] = sauth.None(sauth.U0)
 			case 1:
-				reqs[j] = sauth.Kbd("a")
+				reqs[j] = sauth.Kbd(sauth.U0)
 			case 2:
-				reqs[j] = sauth.Pw("a", "pw1")
+				reqs[j] = sauth.Pw(sauth.U0, "pw1")
 			case 3, 4:
-				reqs[j] = sauth.Query("a", r.PickInt(1, 2))
+				reqs[j] = sauth.Query(sauth.U0, r.PickInt(1, 2))
 			default:
-				reqs[j] = sauth.Sign("a", r.PickInt(1, 2))
+				reqs[j] = sauth.Sign(sauth.U0, r.PickInt(1, 2))
 			}
 			reqs[j].Cb, reqs[j].Vcb = hx.Pick(r, saOutcomes), hx.Pick(r, saOutcomes)
 		}
@@ -283,7 +288,11 @@ func gen(g *hx.Gen) {
 		ln := r.Range(2, 7)
 		reqs := make([]sauth.Req, ln)
 		for j := range reqs {
-			u := r.PickStr("a", "a", "a", "b")
+			u := sauth.U0 // a cache hit must need the byte-identical user
+			if r.Chance(1, 3) {
+				u = r.PickStr("Alice", "ALICE", "al\u0131ce", "alice ", "")
+				g.Stat("key-cache.confusable-user")
+			}
 			k := r.PickInt(1, 1, 2, 5)
 			if r.Chance(1, 2) {
 				reqs[j] = sauth.Query(u, k)
